@@ -1821,15 +1821,21 @@ _read_macro_dispatch: Mapping[str, RawLispReaderFn] = {
 
 def _read_reader_macro(ctx: ReaderContext) -> LispReaderForm:
     """Return a data structure evaluated as a reader macro from the input stream."""
+    line, col = ctx.reader.line, ctx.reader.col
     start = ctx.reader.advance()
     assert start == "#"
     char = ctx.reader.peek()
 
     if (read_macro := _read_macro_dispatch.get(char)) is not None:
-        return read_macro(ctx)
+        v = read_macro(ctx)
+        if char in {"{", "("} and isinstance(v, IWithMeta) and v.meta is not None:
+            # The location of set and function literals starts at the '#'
+            v = v.with_meta(v.meta.assoc(READER_LINE_KW, line, READER_COL_KW, col))
+        return v
     elif begin_ns_name_chars.match(char):
         s = _read_sym(ctx, is_reader_macro_sym=True)
-        assert isinstance(s, sym.Symbol)
+        if not isinstance(s, sym.Symbol):
+            raise ctx.syntax_error(f"Invalid reader macro tag '{lrepr(s)}'")
         if s.ns is None:
             if s.name == "b":
                 return _read_byte_str(ctx)
